@@ -17,15 +17,19 @@ Definition order_signed_msb : list Z := zrange 128 128 ++ zrange 0 128.
 
 (* one stable distribution pass on byte position i; skipped when every
    element has the same byte there ("icount == n") *)
-Definition all_same_byte (nbytes i : nat) (l : list Z) : bool :=
-  match l with
+(* elements tagged with their byte at position i (computed once per pass) *)
+Definition tag (nbytes i : nat) (l : list Z) : list (Z * Z) :=
+  map (fun x => (byte nbytes i x, x)) l.
+Definition all_same_tag (t : list (Z * Z)) : bool :=
+  match t with
   | [] => true
-  | x :: r => forallb (fun y => byte nbytes i y =? byte nbytes i x) r
+  | (b, _) :: r => forallb (fun p => fst p =? b) r
   end.
-Definition distribute (order : list Z) (nbytes i : nat) (l : list Z) : list Z :=
-  flat_map (fun b => filter (fun x => byte nbytes i x =? b) l) order.
+Definition distribute (order : list Z) (t : list (Z * Z)) : list Z :=
+  flat_map (fun b => map snd (filter (fun p => fst p =? b) t)) order.
 Definition pass (order : list Z) (nbytes i : nat) (l : list Z) : list Z :=
-  if all_same_byte nbytes i l then l else distribute order nbytes i l.
+  let t := tag nbytes i l in
+  if all_same_tag t then l else distribute order t.
 
 Fixpoint low_passes (nbytes : nat) (i n : nat) (l : list Z) : list Z :=
   match n with
@@ -161,7 +165,9 @@ Fixpoint zl_eqb (a b : list Z) : bool :=
   | x :: a', y :: b' => Z.eqb x y && zl_eqb a' b'
   | _, _ => false
   end.
-Inductive wmu := MU (signed : bool) (nbytes : nat) (operands : list (list Z)) (rc rp : list Z).
+(* which = 0: the result both implementations returned; 1: C only; 2: Python only *)
+Inductive wmu := MU (which : Z) (signed : bool) (nbytes : nat) (operands : list (list Z)) (r : list Z).
 Definition mucase_ok (c : wmu) : bool :=
-  match c with MU s nb ops rc rp =>
-    zl_eqb (multiunion_c s nb ops) rc && zl_eqb (multiunion_py ops) rp end.
+  match c with MU w s nb ops r =>
+    (if w =? 2 then true else zl_eqb (multiunion_c s nb ops) r) &&
+    (if w =? 1 then true else zl_eqb (multiunion_py ops) r) end.
